@@ -65,9 +65,7 @@ def scalarAccepts (scalar : String) (v : Value) : Bool :=
     | "ID", .int _ => true
     | _, _ => false
   else
-    match v with
-    | .var _ => false
-    | _ => true
+    !v.hasVar
 
 /-- a literal where a scalar is expected -/
 def scalarLiteralOk (s : SchemaD) (w : IView) (v : Value) : Prop :=
